@@ -209,6 +209,16 @@ Definition skipped (pkg : string) (f : frame) : bool :=
   | Some m => String.eqb m "" || internal pkg m
   | None => true
   end.
+(* the frames the walk for the bare name s passes over: those, and the frames whose globals do not bind s *)
+Definition passes (pkg s : string) (f : frame) : bool :=
+  skipped pkg f || match lookup s (f_globals f) with None => true | Some _ => false end.
+(* the nearest frame whose module binds s *)
+Fixpoint first_binding (pkg s : string) (st : list frame) : option frame :=
+  match st with
+  | [] => None
+  | f :: r => if passes pkg s f then first_binding pkg s r else Some f
+  end.
+
 (* the calling frame: the innermost one that is not passed over *)
 Fixpoint first_unskipped (pkg : string) (st : list frame) : option frame :=
   match st with
